@@ -466,3 +466,98 @@ func declDiff(a, b string) string {
 	}
 	return ""
 }
+
+func anonTuple(t *types.Tuple) *types.Tuple {
+	vars := make([]*types.Var, t.Len())
+	for i := 0; i < t.Len(); i++ {
+		vars[i] = types.NewParam(token.NoPos, nil, "", t.At(i).Type())
+	}
+	return types.NewTuple(vars...)
+}
+
+func anonSig(s *types.Signature) string {
+	return types.TypeString(types.NewSignatureType(nil, nil, nil, anonTuple(s.Params()), anonTuple(s.Results()), s.Variadic()), nil)
+}
+
+// typeView describes a mock as types only: type parameters, fields, record layouts and method
+// signatures, with parameter spellings and import qualifiers forgotten (C20).
+func typeView(c *Checked, mockName string) string {
+	obj := c.pkg.Scope().Lookup(mockName)
+	if obj == nil {
+		return "<missing " + mockName + ">"
+	}
+	named, ok := obj.Type().(*types.Named)
+	if !ok {
+		return "<not named>"
+	}
+	var b strings.Builder
+	if tp := named.TypeParams(); tp != nil {
+		for i := 0; i < tp.Len(); i++ {
+			fmt.Fprintf(&b, "tparam %s %s\n", tp.At(i).Obj().Name(), types.TypeString(tp.At(i).Constraint(), nil))
+		}
+	}
+	if st, ok := named.Underlying().(*types.Struct); ok {
+		for i := 0; i < st.NumFields(); i++ {
+			f := st.Field(i)
+			switch ft := f.Type().(type) {
+			case *types.Signature:
+				fmt.Fprintf(&b, "field %s %s\n", f.Name(), anonSig(ft))
+			case *types.Struct:
+				if f.Name() == "calls" {
+					for j := 0; j < ft.NumFields(); j++ {
+						fmt.Fprintf(&b, "calls.%s", ft.Field(j).Name())
+						if sl, ok := ft.Field(j).Type().(*types.Slice); ok {
+							if rec, ok := sl.Elem().(*types.Struct); ok {
+								for k := 0; k < rec.NumFields(); k++ {
+									fmt.Fprintf(&b, " %s", types.TypeString(rec.Field(k).Type(), nil))
+								}
+							}
+						}
+						b.WriteString("\n")
+						continue
+					}
+				} else {
+					fmt.Fprintf(&b, "field %s %s\n", f.Name(), types.TypeString(ft, nil))
+				}
+			default:
+				fmt.Fprintf(&b, "field %s %s\n", f.Name(), types.TypeString(ft, nil))
+			}
+		}
+	}
+	ms := types.NewMethodSet(types.NewPointer(named))
+	for i := 0; i < ms.Len(); i++ {
+		sig := ms.At(i).Type().(*types.Signature)
+		if strings.HasSuffix(ms.At(i).Obj().Name(), "Calls") && sig.Results().Len() == 1 {
+			// accessor: element layout is compared through the calls struct above
+			fmt.Fprintf(&b, "method %s (accessor)\n", ms.At(i).Obj().Name())
+			continue
+		}
+		fmt.Fprintf(&b, "method %s %s\n", ms.At(i).Obj().Name(), anonSig(sig))
+	}
+	return b.String()
+}
+
+// checkSolo is the C20 oracle: each mock of a joint run against the same mock generated alone.
+func checkSolo(job JobCfg, joint *Checked) string {
+	if len(job.Args) < 2 {
+		return ""
+	}
+	for _, a := range job.Args {
+		solo := job
+		solo.Args = []string{a}
+		out := runMoq(solo, "")
+		if out.Err != "" || out.Panic != "" {
+			return "solo generation of " + a + " fails: " + out.Err + out.Panic
+		}
+		c, diag := typeCheck(solo, out.Out, "")
+		if diag != "" || c == nil || c.pkg == nil {
+			return "solo generation of " + a + " does not type-check: " + diag
+		}
+		_, mk := splitArg(a)
+		v1, v2 := typeView(joint, mk), typeView(c, mk)
+		if v1 != v2 {
+			return fmt.Sprintf("mock %s differs between joint and solo generation:\n--- joint\n%s--- solo\n%s", mk, v1, v2)
+		}
+	}
+	return ""
+}
